@@ -357,7 +357,7 @@ def classify(cls, key, old, new, spec_ctrl=None):
     if cls.startswith("Control"):
         # the statement is about the DICTIONARY: the two condition TEXTS are compared as they are; when they differ in
         # spacing only, the spacing shows another nesting of AND/OR (str() of And/OrCondition pads its operands) -- the
-        # dictionary path still writes the tree in order (e0050eda repaired the INP writer, not Rule.to_dict)
+        # dictionary path wrote the tree in order until fb98e708
         if key == "condition" and isinstance(old, str) and isinstance(new, str) and old.split() == new.split():
             return "rule-condition-mixed-and-or-regrouped"
         return "control-%s-%s" % (cls.split(":")[1], key)
@@ -376,8 +376,8 @@ class C13(Check):
         text="Lean theorems: for ANY list of elements, to_dict(from_dict(to_dict m)) = norm(to_dict m) provided every emitted key is "
         "restored faithfully or recomputed (dict_roundtrip_generic / dict_roundtrip_tables), and that condition is decided on the tables "
         "regenerated from the current from_dict (ast) and to_dict (reflection) on every run (dict_tables_ok); append-to-empty equals "
-        "create; the rule text form re-parses to the same condition tree exactly for left-nested AND-of-OR trees (with the "
-        "(a AND b) OR c counterexample). The real from_dict / JSON / read_json / append paths are run on generated API-built models "
+        "create; the rule text form (AND of OR-groups since fb98e708) re-parses to the normal form of EVERY condition tree, with the same "
+        "groups and truth value (the old in-order text is kept as pinned counterexample). The real from_dict / JSON / read_json / append paths are run on generated API-built models "
         "and the example INP files and compared key by key.",
         design_ref="DESIGN.md §5 C13",
         note="modelled, not verified: attribute values are opaque (the per-type setters/validators of elements.py are exercised by the "
